@@ -222,23 +222,35 @@ def _classes():
     return {"InstalledRpm": InstalledRpm, "YumListRpm": YumListRpm, "subclass": _SubRpm}
 
 
-def mk_rpm(name, evr, cls="InstalledRpm", route="dict"):
+ARCHES = ["x86_64", "i686", "noarch"]
+REPOS = [None, "@rhel-7-server-rpms", "updates", "fedora", "@anaconda/7.6"]
+
+
+def mk_rpm(name, evr, cls="InstalledRpm", route="dict", extra=0):
     """one package object through one of the documented ways of making it; every way denotes the same package"""
+    o = _mk_rpm(name, evr, cls, route, ARCHES[extra % len(ARCHES)])
+    if hasattr(o, "repo"):
+        # what a package is compared by is its name, epoch, version and release: where it came from is not part of it
+        o.repo = REPOS[extra % len(REPOS)]
+    return o
+
+
+def _mk_rpm(name, evr, cls, route, arch):
     c = _classes()[cls]
     e, v, r = evr
     if route == "json" or route == "json-none":
         # JSON line; an epoch of 0 is what rpm prints as "(none)" (route json-none) or leaves out
-        d = {"name": name, "version": v, "release": r, "arch": "x86_64"}
+        d = {"name": name, "version": v, "release": r, "arch": arch}
         if e != 0:
             d["epoch"] = str(e)
         elif route == "json-none":
             d["epoch"] = "(none)"
         return c.from_json(json.dumps(d))
     if route == "package" and not any(ch in v + r for ch in "-:") and v and r:
-        o = c.from_package("%s-%s%s-%s.x86_64" % (name, "%d:" % e if e else "", v, r))
+        o = c.from_package("%s-%s%s-%s.%s" % (name, "%d:" % e if e else "", v, r, arch))
         if (o.version, o.release, o.name) == (v, r, name):       # the short string form parsed back to the same fields
             return o
-    return c({"name": name, "epoch": str(e), "version": v, "release": r, "arch": "x86_64"})
+    return c({"name": name, "epoch": str(e), "version": v, "release": r, "arch": arch})
 
 
 def parse_list(which, evrs):
@@ -248,7 +260,8 @@ def parse_list(which, evrs):
         return InstalledRpms(context_wrap("\n".join("pkg-%d:%s-%s.x86_64" % e for e in evrs)))
     head = "Installed Packages" if which == "yum-installed" else "Available Packages"
     rows = ["Loaded plugins: product-id, search-disabled-repos, subscription-manager", head]
-    rows += ["pkg.x86_64    %d:%s-%s    @rhel-7-server-rpms" % e for e in evrs]
+    # one build may be listed from several repositories
+    rows += ["pkg.x86_64    %d:%s-%s    %s" % (e + (REPOS[1 + i % (len(REPOS) - 1)],)) for i, e in enumerate(evrs)]
     return (YumListInstalled if which == "yum-installed" else YumListAvailable)(context_wrap("\n".join(rows)))
 
 
@@ -370,7 +383,9 @@ def run(chk):
         c1 = rng.choice(["InstalledRpm", "InstalledRpm", "YumListRpm", "subclass"])
         c2 = rng.choice(["InstalledRpm", "InstalledRpm", "YumListRpm", "subclass"])
         r1, r2 = rng.choice(ROUTES), rng.choice(ROUTES)
-        a, b = mk_rpm(n1, x, c1, r1), mk_rpm(n2, y, c2, r2)
+        e1, e2 = rng.randrange(15), rng.randrange(15)
+        a, b = mk_rpm(n1, x, c1, r1, e1), mk_rpm(n2, y, c2, r2, e2)
+        chk.count("evr:repo:" + ("n/a" if not (hasattr(a, "repo") and hasattr(b, "repo")) else "same" if a.repo == b.repo else "differs"))
         chk.count("evr:classes:" + ("same" if c1 == c2 else "mixed"))
         chk.count("evr:made-by:" + r1)
         c = rpm_version_compare(a, b)
@@ -386,13 +401,13 @@ def run(chk):
             want = ",".join("1" if v else "0" for v in (c == 0, c != 0, c < 0, c <= 0, c > 0, c >= 0))
             if ops != want:
                 chk.failure("operators disagree with rpm_version_compare=%d: %s (eq,ne,lt,le,gt,ge) for %r vs %r" % (c, ops, x, y),
-                            {"op": "ops", "n1": n1, "x": x, "n2": n2, "y": y, "c1": c1, "c2": c2, "r1": r1, "r2": r2})
+                            {"op": "ops", "n1": n1, "x": x, "n2": n2, "y": y, "c1": c1, "c2": c2, "r1": r1, "r2": r2, "e1": e1, "e2": e2})
             ref = sgn(x[0] - y[0]) or c_rpmvercmp(x[1], y[1]) or c_rpmvercmp(x[2], y[2])
             if c != ref:
                 chk.failure("rpm_version_compare(%r,%r)=%d, RPM gives %d (objects made by %s / %s)" % (x, y, c, ref, r1, r2),
-                            {"op": "evr", "x": x, "y": y, "want": ref, "n1": n1, "n2": n2, "c1": c1, "c2": c2, "r1": r1, "r2": r2})
+                            {"op": "evr", "x": x, "y": y, "want": ref, "n1": n1, "n2": n2, "c1": c1, "c2": c2, "r1": r1, "r2": r2, "e1": e1, "e2": e2})
         elif ops != "E,E,E,E,E,E":
-            chk.failure("packages with different names were compared: %s" % ops, {"op": "ops", "n1": n1, "x": x, "n2": n2, "y": y, "c1": c1, "c2": c2, "r1": r1, "r2": r2})
+            chk.failure("packages with different names were compared: %s" % ops, {"op": "ops", "n1": n1, "x": x, "n2": n2, "y": y, "c1": c1, "c2": c2, "r1": r1, "r2": r2, "e1": e1, "e2": e2})
     out = run_driver("C13", lines)
     model = ["%s|%s" % (out[2 * i], out[2 * i + 1]) for i in range(len(evr_cases))]
     chk.compare("evr+operators", evr_cases, impl, model)
@@ -436,6 +451,13 @@ def run(chk):
                 chk.failure("newest() is not a maximum: %r exceeds %r" % (show(p), show(mx)), {"op": "max", "evrs": evrs, "parser": which})
             if rpm_version_compare(p, mn) < 0:
                 chk.failure("oldest() is not a minimum: %r is below %r" % (show(p), show(mn)), {"op": "min", "evrs": evrs, "parser": which})
+            # the operators on the parsed objects say the same thing as the comparison
+            for q, nm in ((mx, "newest"), (mn, "oldest")):
+                cq = rpm_version_compare(p, q)
+                want = ",".join("1" if v else "0" for v in (cq == 0, cq != 0, cq < 0, cq <= 0, cq > 0, cq >= 0))
+                if ops_impl(p, q) != want:
+                    chk.failure("%s: operators between a listed build %r and %s() %r are %s, the comparison gives %d" % (which, show(p), nm, show(q), ops_impl(p, q), cq),
+                                {"op": "max", "evrs": evrs, "parser": which})
     out = run_driver("C13", lines)
     model = ["%s|%s" % (canon_evr(out[2 * i]), canon_evr(out[2 * i + 1])) for i in range(len(list_cases))]
     chk.compare("newest/oldest", list_cases, impl, model)
@@ -475,8 +497,8 @@ def replay(data):
         bad = (x <= 0 and y <= 0 and z > 0) or (x >= 0 and y >= 0 and z < 0) or (x == 0 and y == 0 and z != 0)
     elif op in ("ops", "evr"):
         x, y = tuple(c["x"]), tuple(c["y"])
-        a = mk_rpm(c.get("n1", "p"), x, c.get("c1", "InstalledRpm"), c.get("r1", "dict"))
-        b = mk_rpm(c.get("n2", "p"), y, c.get("c2", "InstalledRpm"), c.get("r2", "dict"))
+        a = mk_rpm(c.get("n1", "p"), x, c.get("c1", "InstalledRpm"), c.get("r1", "dict"), c.get("e1", 0))
+        b = mk_rpm(c.get("n2", "p"), y, c.get("c2", "InstalledRpm"), c.get("r2", "dict"), c.get("e2", 0))
         print("classes: %s vs %s" % (type(a).__name__, type(b).__name__))
         cmpv = rpm_version_compare(a, b)
         ref = sgn(x[0] - y[0]) or c_rpmvercmp(x[1], y[1]) or c_rpmvercmp(x[2], y[2])
